@@ -32,9 +32,9 @@ ASSUMPTIONS = [
     "paths are only committed to keys whose blob was stored (as dds itself does)",
     "fidelity of the fake dbutils to Databricks is trusted, not checked",
 ]
-PROBES = ["second_live_store_object", "concat_ambiguous_paths_live", "dot_segment_offered", "dot_segment_rejected", "reopen_between_write_and_read",
+PROBES = ["clock_advanced", "second_live_store_object", "concat_ambiguous_paths_live", "dot_segment_offered", "dot_segment_rejected", "reopen_between_write_and_read",
           "store:memory", "store:local", "store:lru", "store:dbfs", "contain_checked"]
-SEGS = ["a", "b", "ab", "a.b", "a b", "é", "c", ".a", ".ab", "a."]
+SEGS = ["a", "b", "ab", "a.b", "a b", "é", "c", ".a", ".ab", "a.", "r.tmp.csv", "x.tmp.1.ab"]
 DOTS = [".", ".."]
 STORES = ["memory", "local", "lru", "dbfs"]
 
@@ -98,7 +98,11 @@ def gen_case(streams, tier, avoid):
     ops = []
     keys = sorted(vals)
     p_switch = cfg.choice([0.0, 0.04, 0.2, 0.35])
+    p_clock = cfg.choice([0.0, 0.0, 0.08])
     for _ in range(n):
+        if rng.random() < p_clock:
+            ops.append(["clock", rng.choice([61.0, 7200.0, 86400.0 * 30])])     # simulated time passes
+            continue
         if rng.random() < p_switch:
             ops.append(["switch"])     # continue with the other of two live store objects on the same directories
             continue
@@ -160,6 +164,11 @@ def run_case(case):
     from dds.structures import DDSException
 
     root = new_scratch("c08")
+    import time as _time
+
+    real_time = _time.time
+    clock_off = [0.0]
+    _time.time = lambda: real_time() + clock_off[0]       # the clock the library reads (file times stay real: files age)
     try:
         store = _open(case, root)
         objs = [store, None]      # two live store objects on the same directories (two processes, two sessions)
@@ -187,6 +196,12 @@ def run_case(case):
                     wsr[cur] = written_since_reopen
                     akey.append("R")
                 log.append([step, "reopen"])
+                continue
+            if k == "clock":
+                clock_off[0] += op[1]
+                probe("clock_advanced")
+                log.append([step, "clock", op[1]])
+                akey.append("T")
                 continue
             if k == "switch":
                 if case["store"] != "memory":
@@ -283,6 +298,7 @@ def run_case(case):
         return {"violations": violations[:3], "log": log, "probes": probes, "faults": {}, "nontrivial": nontrivial,
                 "key": repr(akey), "steps": len(case["ops"])}
     finally:
+        _time.time = real_time
         rmtree(root)
 
 
